@@ -7,6 +7,7 @@ func init() {
 		ID:    "C07",
 		Title: "Each @component use renders the component file with its own arguments and slots",
 		Rules: []string{
+			"R-BODYENTRY: every caller of the block parser, evaluated by cases on an abstract parser (token types as named unknowns), enters it only on a token it has looked at and that is not END / ELSE / ELSE_IF — an empty body is an empty block, not the enclosing construct's closer",
 			"R-OWN: a parsed component program is stored into the Block of one use only (a loop-invariant program stored into loop-varying uses must leave the loop), the loader passes a freshly parsed program per use, ApplyComponent serves a use that has no program yet; a missing component file is reported with the component's name",
 			"R-SCOPE: component arguments are evaluated in the caller's scope and bound through Set in a fresh enclosed scope in which the block is evaluated",
 			"R-ERRDROP / R-NILFIELD on evalComponentStmt, evalSlotStmt and the loader functions: binding errors are returned; Block, Argument and slot Body are nil-tested",
@@ -18,6 +19,7 @@ func init() {
 		NotDecided:  "TODO",
 		Assumptions: trustedBase,
 		Run: func(m *Model, s *Sink) {
+			m.RunBodyEntry(s, "R-BODYENTRY") // an empty body (of a slot, an insert, a branch, a loop) does not take the enclosing closer
 			m.RunOwn(s, "R-OWN")
 			m.RunScope(s, "R-SCOPE")
 			m.RunSlotGap(s, "R-SLOTGAP")
